@@ -4,7 +4,8 @@ sqlite with lazy commit (the one lazily-committing store) under the virtual cloc
 every op returns the snapshot stub gives the durable state, so the harness knows black-box
 the latest simulated instant f at which a flush can have happened.  Oracle: an event write
 *issued* at t with t - f > 11 s (the code's 10 s + 10 % slack) is itself durable when it
-returns.  Nothing is required for t - f <= 11 s; early flushes are never a violation.  No
+returns (for a bulk call: its first elementary write and everything older -- the call may
+flush midway and legitimately buffer what it writes right after that flush).  Nothing is required for t - f <= 11 s; early flushes are never a violation.  No
 VIOLATION is printed unless the minimised schedule also fails under the REAL clock."""
 import os
 
@@ -41,8 +42,8 @@ class FwdTicker(actors.Party):
 class C18(Check):
     prop = "C18"
     level = "fault_enumeration"
-    quick_runs = 4000
-    thorough_runs = 100000
+    quick_runs = 16000
+    thorough_runs = 400000
     chunk = 40
     rule = (
         "seeded write histories (single/bulk inserts, replaces, deletes, blind replace_last, occasional client reads, "
@@ -129,11 +130,13 @@ class C18(Check):
                     self._nt = True
                     if pt["n"] - prev_j > 1:
                         pr["age_requirement_with_older_buffered"] += 1
-                    if j < pt["n"]:
+                    # a bulk call may flush after its first elementary write and buffer the rest (those were
+                    # then written right after a flush): at least its first write and everything older is durable
+                    if j < pt["n_before"] + 1:
                         raise Violation(
                             "age_flush",
-                            "%s issued %.3f s after the last possible flush returned without being durable: %d of %d issued writes are in the reopened database (step %d)"
-                            % (pt["op"], age / 1e6, j, pt["n"], pt["step"]),
+                            "%s issued %.3f s after the last possible flush returned without being durable: %d of %d issued writes are in the reopened database, the call's own writes start at %d (step %d)"
+                            % (pt["op"], age / 1e6, j, pt["n"], pt["n_before"] + 1, pt["step"]),
                             {"op": pt["op"], "step_index": pt["step"], "age_s": age / 1e6},
                         )
                 else:
